@@ -310,11 +310,31 @@ theorem falsy_evaluates_nil {ops : OpSem} {m : Mode} {c : Rich} (h : Step.truthy
 
 theorem nilp_nil : Val.nilp Val.nil = true := rfl
 
-/-- **collapse_constant_condition** `(i COND A B . ANY) ⇒ A | B` for a constant COND, under the
-    decidable side condition `collapseSafe` (which is `true` for every input in the fixed
-    integer mode, see `collapseSafe_fixed`). -/
+/-- `truthy_when_converted` IS CLVM truthiness of the converted value, in both integer modes. -/
+theorem truthyWhenConverted_eq (m : Mode) (x : Rich) : truthyWhenConverted m x = clvmTruthy m x := by
+  cases x with
+  | nil => rfl
+  | cons a d => simp [truthyWhenConverted, clvmTruthy, toClvm, Val.nilp]
+  | atom a => simp [truthyWhenConverted, clvmTruthy, toClvm, Val.nilp]
+  | qstr q a => simp [truthyWhenConverted, clvmTruthy, toClvm, Val.nilp]
+  | int i =>
+    have hne := Bytes.ofInt_ne_nil i
+    have hb : (Bytes.ofInt i).isEmpty = false := by
+      cases hb : Bytes.ofInt i with
+      | nil => exact absurd hb hne
+      | cons _ _ => rfl
+    cases m with
+    | false => simp [truthyWhenConverted, clvmTruthy, toClvm, Val.nilp, hb]
+    | true =>
+      by_cases hi : i = 0
+      · subst hi; simp [truthyWhenConverted, clvmTruthy, toClvm, Val.nilp]
+      · simp [truthyWhenConverted, clvmTruthy, toClvm, Val.nilp, hi, hb]
+
+/-- **collapse_constant_condition** `(i COND A B . ANY) ⇒ A | B` for a constant COND: sound for
+    every input in both integer modes (a quoted condition is decided by `truthy_when_converted`,
+    which is CLVM truthiness of the converted value; an unquoted one only when it is a zero path). -/
 theorem collapseConstantCondition_sound {ops : OpSem} (po : PassOps ops) (m : Mode) (r : Rich)
-    (hs : collapseSafe m r = true) {e v : Val} (h : Evaluates ops (toClvm m r) e v) :
+    {e v : Val} (h : Evaluates ops (toClvm m r) e v) :
     Evaluates ops (toClvm m (collapseConstantCondition m r).2) e v := by
   unfold collapseConstantCondition
   split
@@ -330,12 +350,12 @@ theorem collapseConstantCondition_sound {ops : OpSem} (po : PassOps ops) (m : Mo
         simp only [constCond]
         by_cases hq : isAtomValue [1] qh = true
         · simp only [hq, if_true]
-          simp only [collapseSafe, h3, hq, Bool.and_self, if_true, beq_iff_eq] at hs
           simp only [toClvm] at hC
           rw [toClvm_of_isAtomValue (by decide) (by decide) hq] at hC
           have hc := eval_quote.1 hC
           subst hc
-          cases ht : Step.truthy m x with
+          have hs := truthyWhenConverted_eq m x
+          cases ht : truthyWhenConverted m x with
           | true =>
             simp only
             rw [ht] at hs
@@ -407,14 +427,6 @@ theorem truthy_fixed (x : Rich) : Step.truthy true x = clvmTruthy true x := by
       | nil => exact absurd hb hne
       | cons _ _ => simp [hi]
 
-theorem collapseSafe_fixed (r : Rich) : collapseSafe true r = true := by
-  unfold collapseSafe
-  split
-  · split
-    · simp [truthy_fixed]
-    · rfl
-  · rfl
-
 theorem changeApplyDoubleQuote_unchanged (r : Rich) (h : (changeApplyDoubleQuote r).1 = false) :
     (changeApplyDoubleQuote r).2 = r := by
   unfold changeApplyDoubleQuote at h ⊢
@@ -446,15 +458,16 @@ theorem collapseConstantCondition_unchanged (m : Mode) (r : Rich)
     · rfl
   · rfl
 
-/-- the chain of root rewrites is sound whenever its ghost flag is clear. -/
+/-- the chain of root rewrites is sound on every input. -/
 theorem rootRewrites_sound {ops : OpSem} (po : PassOps ops) (m : Mode) (x : Rich)
-    (hf : (rootRewrites m true x).flag = false) {e v : Val} (h : Evaluates ops (toClvm m x) e v) :
+    {e v : Val} (h : Evaluates ops (toClvm m x) e v) :
     Evaluates ops (toClvm m (rootRewrites m true x).out) e v := by
-  simp only [rootRewrites, if_true] at hf ⊢
-  have hs : collapseSafe m (changeDoubleToSingleApply (changeApplyDoubleQuote x).2).2 = true := by
-    simpa using hf
-  exact collapseConstantCondition_sound po m _ hs
+  simp only [rootRewrites, if_true]
+  exact collapseConstantCondition_sound po m _
     (changeDoubleToSingleApply_sound m _ (changeApplyDoubleQuote_sound m x h))
+
+theorem rootRewrites_flag (m : Mode) (sp : Bool) (x : Rich) : (rootRewrites m sp x).flag = false := by
+  cases sp <;> simp [rootRewrites, same]
 
 theorem rootRewrites_unchanged (m : Mode) (sp : Bool) (x : Rich)
     (h : (rootRewrites m sp x).changed = false) : (rootRewrites m sp x).out = x := by
@@ -605,47 +618,54 @@ theorem nullOpt_pres {ops : OpSem} (po : PassOps ops) (m : Mode) : ∀ (r : Rich
           exact pres_call hop hne (ihb true hfb)
         · exact Pres.refl ..
 
-/-- **null_optimization** as the strategies call it (`spine = false`: `ExistingStrategy`;
-    `spine = true`: `Strategy23`, the root cell treated as a list tail). -/
+/-- `null_optimization(cell, true)` on an expression whose head is an atom other than `q`: the
+    list view of the root cell gives the expression view. -/
+theorem nullOpt_root_pres {ops : OpSem} (po : PassOps ops) (m : Mode) (a b : Rich)
+    (hnq : isAtomValue [1] a = false) (hnc : isCons a = false)
+    (hf1 : (nullOpt m (.cons a b) true).flag = false) :
+    Pres ops m true (.cons a b) (nullOpt m (.cons a b) true).out := by
+  obtain ⟨op, hop, hne⟩ := toClvm_of_not_q (m := m) hnc hnq
+  simp only [nullOpt, Bool.not_true, Bool.and_false, Bool.false_eq_true, if_false, nullJoin] at hf1 ⊢
+  rw [nullOpt_noncons m hnc false] at hf1 ⊢
+  simp only [same, Bool.false_or] at hf1 ⊢
+  split
+  · rename_i hcb
+    rw [if_pos hcb] at hf1
+    simp only [Bool.false_or, Bool.or_false] at hf1
+    exact pres_call hop hne (nullOpt_pres po m b true hf1)
+  · exact Pres.refl ..
+
+/-- **null_optimization** as the strategies call it (`spine = false`: `ExistingStrategy`,
+    `null_optimization(root, false)`; `spine = true`: `Strategy23`,
+    `null_optimization_of_expression(root)` — a quote form is left alone, otherwise the root cell
+    is treated as a list tail). -/
 theorem nullPass_pres {ops : OpSem} (po : PassOps ops) (m : Mode) (r : Rich) (sp : Bool)
     (hf : (nullPass m r sp).flag = false) : Pres ops m true r (nullPass m r sp).out := by
-  have hout : (nullPass m r sp).out = (nullOpt m r sp).out := by simp [nullPass]
-  have hflag : (nullPass m r sp).flag =
-      ((nullOpt m r sp).flag || (sp && (nullOpt m r sp).changed && nullRootFlag r)) := by
-    simp [nullPass]
-  rw [hout]
-  rw [hflag] at hf
-  simp only [Bool.or_eq_false_iff] at hf
-  obtain ⟨hf1, hf2⟩ := hf
   cases sp with
-  | false => exact nullOpt_pres po m r false hf1
+  | false =>
+    simp only [nullPass, Bool.false_eq_true, if_false] at hf ⊢
+    exact nullOpt_pres po m r false hf
   | true =>
-    by_cases hc : (nullOpt m r true).changed = true
-    · simp only [hc, Bool.true_and] at hf2
-      cases r with
-      | cons a b =>
-        simp only [nullRootFlag, isQuoted, Bool.or_eq_false_iff] at hf2
-        obtain ⟨hnq, hnc⟩ := hf2
-        obtain ⟨op, hop, hne⟩ := toClvm_of_not_q (m := m) hnc hnq
-        have hl := nullOpt_pres po m (.cons a b) true hf1
-        simp only [Bool.not_true] at hl
-        -- the list view of the root cell gives the expression view for an atom head ≠ q
-        simp only [nullOpt, Bool.not_true, Bool.and_false, Bool.false_eq_true, if_false, nullJoin] at hl hf1 ⊢
-        rw [nullOpt_noncons m hnc false] at hl hf1 ⊢
-        simp only [same, Bool.false_or] at hl hf1 ⊢
-        split
-        · rename_i hcb
-          rw [if_pos hcb] at hf1
-          simp only [Bool.false_or, Bool.or_false] at hf1
-          exact pres_call hop hne (nullOpt_pres po m b true hf1)
-        · exact Pres.refl ..
-      | nil => exact Pres.refl ..
-      | atom _ => exact Pres.refl ..
-      | qstr _ _ => exact Pres.refl ..
-      | int _ => exact Pres.refl ..
-    · have : (nullOpt m r true).changed = false := by simpa using hc
-      rw [nullOpt_unchanged m r true this]
-      exact Pres.refl ..
+    simp only [nullPass, if_true, Bool.or_eq_false_iff] at hf ⊢
+    obtain ⟨hf1, hf2⟩ := hf
+    unfold nullOfExpression at hf1 hf2 ⊢
+    by_cases hq : isQuoted r = true
+    · rw [if_pos hq]; exact Pres.refl ..
+    · rw [if_neg hq] at hf1 hf2 ⊢
+      by_cases hc : (nullOpt m r true).changed = true
+      · simp only [hc, Bool.true_and] at hf2
+        cases r with
+        | cons a b =>
+          simp only [nullRootFlag] at hf2
+          have hnq : isAtomValue [1] a = false := by simpa [isQuoted] using hq
+          exact nullOpt_root_pres po m a b hnq hf2 hf1
+        | nil => exact Pres.refl ..
+        | atom _ => exact Pres.refl ..
+        | qstr _ _ => exact Pres.refl ..
+        | int _ => exact Pres.refl ..
+      · have : (nullOpt m r true).changed = false := by simpa using hc
+        rw [nullOpt_unchanged m r true this]
+        exact Pres.refl ..
 
 -- ---------------------------------------------------------------------------------------
 -- remove_double_apply (every fuel)
@@ -679,11 +699,13 @@ theorem rdaLoop_flag_mono (m : Mode) : ∀ (f : Nat) (s : Rich) (sp was fl oo : 
     | cons a b =>
       simp only [rdaLoop] at h
       split at h
-      · have := ih _ _ _ _ _ h
-        simp only [Bool.or_eq_false_iff] at this
-        exact this.1.1.1.1
-      · simp only [Bool.or_eq_false_iff] at h
-        exact h.1.1.1.1
+      · exact h
+      · split at h
+        · have := ih _ _ _ _ _ h
+          simp only [Bool.or_eq_false_iff] at this
+          exact this.1.1.1.1
+        · simp only [Bool.or_eq_false_iff] at h
+          exact h.1.1.1.1
     | nil => simpa [rdaLoop] using h
     | atom _ => simpa [rdaLoop] using h
     | qstr _ _ => simpa [rdaLoop] using h
@@ -701,8 +723,10 @@ theorem rdaLoop_was_mono (m : Mode) : ∀ (f : Nat) (s : Rich) (sp fl oo : Bool)
     | cons a b =>
       simp only [rdaLoop]
       split
-      · exact ih ..
       · rfl
+      · split
+        · exact ih ..
+        · rfl
     | nil => simp [rdaLoop]
     | atom _ => simp [rdaLoop]
     | qstr _ _ => simp [rdaLoop]
@@ -730,35 +754,40 @@ theorem rda_unchanged (m : Mode) : ∀ (f : Nat),
       | cons a b =>
         simp only [rdaLoop] at h ⊢
         split
-        · rename_i hc
-          rw [if_pos hc] at h
-          rw [rdaLoop_was_mono] at h
-          cases h
-        · rename_i hc
-          simp only [Bool.or_eq_true, not_or, Bool.not_eq_true] at hc
-          obtain ⟨⟨hca, hcb⟩, hcr⟩ := hc
-          simp only
-          rw [rootRewrites_unchanged m sp _ hcr, ihR a true hca, ihR b false hcb]
+        · rfl
+        · rename_i hg
+          rw [if_neg hg] at h
+          split
+          · rename_i hc
+            rw [if_pos hc] at h
+            rw [rdaLoop_was_mono] at h
+            cases h
+          · rename_i hc
+            simp only [Bool.or_eq_true, not_or, Bool.not_eq_true] at hc
+            obtain ⟨⟨hca, hcb⟩, hcr⟩ := hc
+            simp only
+            rw [rootRewrites_unchanged m sp _ hcr, ihR a true hca, ihR b false hcb]
       | nil => simp [rdaLoop]
       | atom _ => simp [rdaLoop]
       | qstr _ _ => simp [rdaLoop]
       | int _ => simp [rdaLoop]
 
-/-- one loop iteration's recursive part: `Cons(a, b)` ⇒ `Cons(new_a, new_b)`. -/
+/-- one loop iteration's recursive part: `Cons(a, b)` ⇒ `Cons(new_a, new_b)`; at an expression
+    root the cell is not a quote form (`hnq`: the entry check, or the loop's re-check). -/
 theorem rda_step_pres {ops : OpSem} (m : Mode) (sp : Bool) (a b : Rich) (ra rb : PR)
     (houtA : isCons a = false → ra.out = a)
     (hunA : ra.changed = false → ra.out = a) (hunB : rb.changed = false → rb.out = b)
     (hpa : Pres ops m true a ra.out) (hpb : Pres ops m false b rb.out)
+    (hnq : sp = true → isAtomValue [1] a = false)
     (hshape : (rdaShapeFlag sp a b && (ra.changed || rb.changed)) = false) :
     Pres ops m sp (.cons a b) (.cons ra.out rb.out) := by
   cases sp with
   | false => exact pres_list_cons hpa hpb
   | true =>
     by_cases hsub : (ra.changed || rb.changed) = true
-    · simp only [hsub, Bool.and_true, rdaShapeFlag, Bool.true_and, Bool.or_eq_false_iff, isQuoted] at hshape
-      obtain ⟨hnq, hnc⟩ := hshape
-      rw [houtA hnc]
-      obtain ⟨op, hop, hne⟩ := toClvm_of_not_q (m := m) hnc hnq
+    · simp only [hsub, Bool.and_true, rdaShapeFlag, Bool.true_and] at hshape
+      rw [houtA hshape]
+      obtain ⟨op, hop, hne⟩ := toClvm_of_not_q (m := m) hshape (hnq rfl)
       exact pres_call hop hne hpb
     · simp only [Bool.or_eq_true, not_or, Bool.not_eq_true] at hsub
       rw [hunA hsub.1, hunB hsub.2]
@@ -766,16 +795,18 @@ theorem rda_step_pres {ops : OpSem} (m : Mode) (sp : Bool) (a b : Rich) (ra rb :
 
 /-- `remove_double_apply` preserves meaning for EVERY fuel (a run that exhausts its fuel returns
     an intermediate tree, which still means what the input means) whenever the ghost flag is
-    clear: as an expression for `spine = true`, as an operand list for `spine = false`. -/
+    clear: as an expression for `spine = true`, as an operand list for `spine = false`.
+    (`rdaLoop`: entered at an expression root that is not a quote form unless a transformation
+    has already happened — then the loop re-checks.) -/
 theorem rda_pres {ops : OpSem} (po : PassOps ops) (m : Mode) : ∀ (f : Nat),
     (∀ s sp, (rda m f s sp).flag = false → Pres ops m sp s (rda m f s sp).out) ∧
-    (∀ s sp was fl oo, (rdaLoop m f s sp was fl oo).flag = false →
+    (∀ s sp was fl oo, (sp && !was && isQuoted s) = false → (rdaLoop m f s sp was fl oo).flag = false →
       Pres ops m sp s (rdaLoop m f s sp was fl oo).out) := by
   intro f
   induction f with
   | zero =>
     exact ⟨fun s sp _ => by simp only [rda]; exact Pres.refl ..,
-           fun s sp was fl oo _ => by simp only [rdaLoop]; exact Pres.refl ..⟩
+           fun s sp was fl oo _ _ => by simp only [rdaLoop]; exact Pres.refl ..⟩
   | succ f ih =>
     obtain ⟨ihR, ihL⟩ := ih
     constructor
@@ -785,36 +816,45 @@ theorem rda_pres {ops : OpSem} (po : PassOps ops) (m : Mode) : ∀ (f : Nat),
       · exact Pres.refl ..
       · rename_i hc
         rw [if_neg hc] at h
-        exact ihL _ _ _ _ _ h
-    · intro s sp was fl oo h
+        exact ihL _ _ _ _ _ (by simpa using hc) h
+    · intro s sp was fl oo hq h
       cases s with
       | cons a b =>
         simp only [rdaLoop] at h ⊢
-        -- the accumulated flag of this iteration is clear in both branches
-        have hfl : (fl || (rda m f a true).flag || (rda m f b false).flag ||
-            (rootRewrites m sp (.cons (rda m f a true).out (rda m f b false).out)).flag ||
-            (rdaShapeFlag sp a b && ((rda m f a true).changed || (rda m f b false).changed))) = false := by
-          split at h
-          · exact rdaLoop_flag_mono m _ _ _ _ _ _ h
-          · exact h
-        simp only [Bool.or_eq_false_iff] at hfl
-        obtain ⟨⟨⟨⟨_, hfa⟩, hfb⟩, hfr⟩, hsh⟩ := hfl
-        have hstep : Pres ops m sp (.cons a b) (.cons (rda m f a true).out (rda m f b false).out) :=
-          rda_step_pres m sp a b _ _ (fun hc => rda_noncons m f hc true)
-            ((rda_unchanged m f).1 a true) ((rda_unchanged m f).1 b false)
-            (ihR a true hfa) (ihR b false hfb) hsh
-        have hroot : Pres ops m sp (.cons (rda m f a true).out (rda m f b false).out)
-            (rootRewrites m sp (.cons (rda m f a true).out (rda m f b false).out)).out := by
-          cases sp with
-          | false => exact Pres.refl ..
-          | true =>
-            simp only [Pres, if_true]
-            exact fun e v hv => rootRewrites_sound po m _ hfr hv
         split
-        · rename_i hc
-          rw [if_pos hc] at h
-          exact (hstep.trans hroot).trans (ihL _ _ _ _ _ h)
-        · exact hstep.trans hroot
+        · exact Pres.refl ..
+        · rename_i hg
+          rw [if_neg hg] at h
+          -- at an expression root this cell is not a quote form
+          have hnq : sp = true → isAtomValue [1] a = false := by
+            intro hsp
+            subst hsp
+            cases was <;> simp_all [isQuoted]
+          -- the accumulated flag of this iteration is clear in both branches
+          have hfl : (fl || (rda m f a true).flag || (rda m f b false).flag ||
+              (rootRewrites m sp (.cons (rda m f a true).out (rda m f b false).out)).flag ||
+              (rdaShapeFlag sp a b && ((rda m f a true).changed || (rda m f b false).changed))) = false := by
+            split at h
+            · exact rdaLoop_flag_mono m _ _ _ _ _ _ h
+            · exact h
+          simp only [Bool.or_eq_false_iff] at hfl
+          obtain ⟨⟨⟨⟨_, hfa⟩, hfb⟩, _⟩, hsh⟩ := hfl
+          have hstep : Pres ops m sp (.cons a b) (.cons (rda m f a true).out (rda m f b false).out) :=
+            rda_step_pres m sp a b _ _ (fun hc => rda_noncons m f hc true)
+              ((rda_unchanged m f).1 a true) ((rda_unchanged m f).1 b false)
+              (ihR a true hfa) (ihR b false hfb) hnq hsh
+          have hroot : Pres ops m sp (.cons (rda m f a true).out (rda m f b false).out)
+              (rootRewrites m sp (.cons (rda m f a true).out (rda m f b false).out)).out := by
+            cases sp with
+            | false => exact Pres.refl ..
+            | true =>
+              simp only [Pres, if_true]
+              exact fun e v hv => rootRewrites_sound po m _ hv
+          split
+          · rename_i hc
+            rw [if_pos hc] at h
+            exact (hstep.trans hroot).trans (ihL _ _ _ _ _ (by simp) h)
+          · exact hstep.trans hroot
       | nil => simp only [rdaLoop]; exact Pres.refl ..
       | atom _ => simp only [rdaLoop]; exact Pres.refl ..
       | qstr _ _ => simp only [rdaLoop]; exact Pres.refl ..
@@ -1183,6 +1223,8 @@ theorem rda_size (m : Mode) : ∀ (f : Nat),
       cases s with
       | cons a b =>
         simp only [rdaLoop]
+        split
+        · exact ⟨Nat.le_refl _, fun h => Or.inl h⟩
         obtain ⟨a1, a2⟩ := ihR a true
         obtain ⟨b1, b2⟩ := ihR b false
         obtain ⟨r1, r2⟩ := rootRewrites_size m sp (.cons (rda m f a true).out (rda m f b false).out)
@@ -1230,6 +1272,8 @@ theorem rda_fuel_enough (m : Mode) : ∀ (f : Nat),
       cases s with
       | cons a b =>
         simp only [rdaLoop]
+        split
+        · rfl
         have ha := rsize_pos a
         have hb := rsize_pos b
         simp only [rsize] at h
@@ -1282,8 +1326,10 @@ theorem nullOpt_size (m : Mode) : ∀ (r : Rich) (sp : Bool), rsize (nullOpt m r
 
 theorem strategy23_terminates (m : Mode) (r : Rich) : (strategy23 m (strategy23Fuel r) r).oof = false := by
   have hn : rsize (nullPass m r true).out ≤ rsize r := by
-    have : (nullPass m r true).out = (nullOpt m r true).out := by simp [nullPass]
-    rw [this]; exact nullOpt_size m r true
+    simp only [nullPass, if_true, nullOfExpression]
+    split
+    · exact Nat.le_refl _
+    · exact nullOpt_size m r true
   have := (rda_fuel_enough m (strategy23Fuel r)).1 (nullPass m r true).out true
     (by simp only [strategy23Fuel, rdaFuel]; omega)
   simp only [strategy23]
@@ -1406,5 +1452,30 @@ theorem null_flag_of_shape : ∀ (r : Rich) (sp : Bool),
           rw [nullOpt_noncons true hc false]
           simp only [nullJoin, same, hc, Bool.false_and, Bool.or_false, Bool.false_or]
           split <;> simp [h2]
+
+theorem nullPass_flag_of_shape (r : Rich) (sp : Bool) (h : exprShape r = true) :
+    (nullPass true r sp).flag = false := by
+  cases sp with
+  | false =>
+    simp only [nullPass, Bool.false_eq_true, if_false]
+    exact null_flag_of_shape r false (by simpa using h)
+  | true =>
+    simp only [nullPass, if_true, nullOfExpression]
+    by_cases hq : isQuoted r = true
+    · simp [hq, same]
+    · rw [if_neg hq]
+      cases r with
+      | cons a b =>
+        have hnq : isAtomValue [1] a = false := by simpa [isQuoted] using hq
+        simp only [exprShape, hnq, Bool.false_or, Bool.and_eq_true, Bool.not_eq_true'] at h
+        obtain ⟨hc, ha⟩ := h
+        have hb := null_flag_of_shape b true (by simpa using ha)
+        simp only [nullOpt, Bool.not_true, Bool.and_false, Bool.false_eq_true, if_false, nullJoin,
+          nullOpt_noncons true hc false, same, nullRootFlag, hc, Bool.and_false, Bool.or_false, Bool.false_or]
+        split <;> simp [hb]
+      | nil => simp [nullOpt, same, nullRootFlag]
+      | atom _ => simp [nullOpt, same, nullRootFlag]
+      | qstr _ _ => simp [nullOpt, same, nullRootFlag]
+      | int _ => simp [nullOpt, same, nullRootFlag]
 
 end Passes
